@@ -2,28 +2,9 @@
    a well-formed AST (induction over the AST), and the round trip theorem [parse_print_full]. *)
 From Coq Require Import NArith ZArith List Bool Arith Lia ZifyBool ZifyNat ZifyN.
 From Qv Require Import gen.Tables gen.Tables_tmpl gen.Tables_expr gen.Tables_digit gen.Tables_tparse EscapeModel FinderModel FinderProofs
-  TmplModel TmplRender TmplProofs TparseModel TparseFinder TparseRound TrenderModel TfullModel TfullSem TfullParse TfullExpr TfullNum.
+  TmplModel TmplRender TmplProofs TparseModel TparseFinder TparseRound TrenderModel TfullModel TfullSem TfullParse TfullExpr TfullNum TfullIif.
 Import ListNotations.
 Ltac Zify.zify_post_hook ::= Z.div_mod_to_equations.
-
-(* ---- the main loop on a printed AST ---- *)
-Fixpoint steps (n : tnode) : nat :=
-  let sl := fix sl (l : list tnode) : nat := match l with [] => 0 | x :: r => steps x + sl r end in
-  match n with
-  | TVar _ | TRaw _ | TMath _ => 1
-  | TLoop _ _ _ _ body => S (S (sl body))
-  | TIf _ body more =>
-    S (sl body + (fix sm (l : list (option expr * list tnode)) : nat :=
-                    match l with [] => 1 | (_, b) :: r => S (sl b + sm r) end) more)
-  | _ => 0
-  end.
-Fixpoint steps_list (l : list tnode) : nat := match l with [] => 0 | x :: r => steps x + steps_list r end.
-Fixpoint steps_more (l : list (option expr * list tnode)) : nat :=
-  match l with [] => 1 | (_, b) :: r => S (steps_list b + steps_more r) end.
-Lemma steps_loop : forall s v g so body, steps (TLoop s v g so body) = S (S (steps_list body)).
-Proof. reflexivity. Qed.
-Lemma steps_if : forall c body more, steps (TIf c body more) = S (steps_list body + steps_more more).
-Proof. reflexivity. Qed.
 
 Lemma spec_if : forall r off, next_spec_c8 (s_if_open ++ r) off = (9%N, off + 3).
 Proof. intros r off. cbn. f_equal. lia. Qed.
@@ -54,9 +35,6 @@ Proof.
   - unfold lr, loop_rec, val. cbn [l_off l_voff]. rewrite Nat2N.id. repeat rewrite app_length. cbn [length s_loop_open s_value_attr].
     destruct set as [p|]; unfold hp_set; repeat rewrite app_length; cbn [length s_set_attr s_quote]; lia.
 Qed.
-
-Lemma spec_math : forall r off, next_spec_c8 (s_math_open ++ r) off = (4%N, off + 6).
-Proof. intros r off. cbn. f_equal. lia. Qed.
 
 Section Sim2.
   Variable numf : list N -> N * N * nat.
@@ -381,9 +359,202 @@ Section Sim2.
       rewrite (do_math_sim env stk cur pre e post 4 Hc Hok Henv). cbn [bind].
       cbn [build print_node]. repeat rewrite app_length. cbn [length s_math_open s_close].
       replace (length pre + (6 + (length (print_expr e) + 1))) with (length pre + 6 + length (print_expr e) + 1) by lia. reflexivity.
-    - intros p subs depth env stk cur pre post fuel Hwf. discriminate Hwf.
-    - intros c t fl _ _ depth env stk cur pre post fuel Hwf. discriminate Hwf.
-    - intros c t _ depth env stk cur pre post fuel Hwf. discriminate Hwf.
+    - (* super variable *)
+      intros p subs depth env stk cur pre post fuel Hwf Hc Henv Hstk.
+      rewrite wf_TSVar in Hwf. apply andb_prop in Hwf. destruct Hwf as [Hwf Hws]. apply andb_prop in Hwf. destruct Hwf as [Hwf Hso].
+      apply andb_prop in Hwf. destruct Hwf as [Hwf Hne]. apply andb_prop in Hwf. destruct Hwf as [Hwf Hfr]. apply andb_prop in Hwf. destruct Hwf as [Hwp H44].
+      rewrite steps_svar. rewrite build_TSVar. rewrite print_node_TSVar in *.
+      set (off := length pre). set (pp := print_path p) in *.
+      set (tot := length (s_svar_open ++ pp ++ print_subs subs ++ s_close)).
+      assert (Htot : tot = 6 + length pp + length (print_subs subs) + 1)
+        by (unfold tot; repeat rewrite app_length; cbn [length s_svar_open s_close]; lia).
+      destruct subs as [|x0 r0] eqn:Esubs; [discriminate Hne|]. rewrite <- Esubs in *.
+      assert (Hps : print_subs subs = s_comma_sp ++ (print_node x0 ++ print_subs r0)) by (rewrite Esubs; reflexivity).
+      set (rest := (print_node x0 ++ print_subs r0) ++ s_close ++ post).
+      assert (Hc1 : content = pre ++ s_svar_open ++ pp ++ s_comma_sp ++ rest)
+        by (rewrite Hc, Hps; unfold rest; repeat rewrite <- app_assoc; reflexivity).
+      assert (H125 : In 125%N rest) by (unfold rest; apply in_or_app; right; left; reflexivity).
+      assert (Ht : tok pre ((s_svar_open ++ pp ++ print_subs subs ++ s_close) ++ post) = (5%N, off + 6))
+        by (unfold tok; repeat rewrite <- app_assoc; apply spec_svar).
+      rewrite Ht. rewrite <- (steps_sub_ok subs Hso). replace (S (S (steps_list subs)) + fuel) with (S (steps_list subs + S fuel)) by lia.
+      rewrite main_loop_step by (cbn; discriminate). unfold step.
+      change (stt (5%N, off + 6) stk cur (map snd env)) with (mkS (off + 6) 5 stk cur false (map snd env)). cbn [ps_fm].
+      change (N.eqb 5 tpp_LineEndID) with false. change (N.eqb 5 tpp_VariableID) with false. change (N.eqb 5 tpp_RawVariableID) with false.
+      change (N.eqb 5 tpp_MathID) with false. change (N.eqb 5 tpp_SuperVariableID) with true. cbv iota.
+      unfold off at 1. rewrite (do_svar_sim w content (map snd env) stk cur pre p rest 5 Hc1 H125 Hwp H44). cbn [bind]. fold pp off.
+      set (v := mkV (off + 6) (N.of_nat (length pp)) 0 0).
+      set (stk' := (cur ++ [PSVar off 0 v []]) :: stk).
+      set (prs := pre ++ s_svar_open ++ pp).
+      assert (Hlp : length prs = off + 6 + length pp) by (unfold prs, off; repeat rewrite app_length; cbn [length s_svar_open]; lia).
+      replace (tok (pre ++ s_svar_open ++ pp ++ s_comma_sp) rest) with (tok prs (print_nodes (subs_nodes subs) ++ (s_close ++ post))).
+      2:{ rewrite subs_nodes_print, Hps. unfold prs, rest.
+          replace ((s_comma_sp ++ print_node x0 ++ print_subs r0) ++ s_close ++ post) with (s_comma_sp ++ (print_node x0 ++ print_subs r0) ++ s_close ++ post)
+            by (repeat rewrite <- app_assoc; reflexivity).
+          rewrite (tok_text s_comma_sp) by reflexivity. repeat rewrite <- app_assoc. reflexivity. }
+      assert (Hcs : content = prs ++ print_nodes (subs_nodes subs) ++ (s_close ++ post))
+        by (rewrite subs_nodes_print, Hc; unfold prs; repeat rewrite <- app_assoc; reflexivity).
+      rewrite <- (subs_nodes_steps subs).
+      rewrite (leaf_list_par numf w content Hnum (subs_nodes subs) (S depth) env stk' [] prs _ (S fuel)
+                 (subs_nodes_inl subs Hso) (subs_nodes_wf _ _ subs Hws) Hcs Henv).
+      cbn [app]. rewrite subs_nodes_build, subs_nodes_print, Hlp.
+      set (tags := build_subs env (S depth) (off + 6 + length pp) subs).
+      assert (Hl3 : length (prs ++ print_subs subs) = off + tot - 1) by (rewrite app_length, Hlp, Htot; lia).
+      assert (Ht3 : tok (prs ++ print_subs subs) (s_close ++ post) = (1%N, off + tot))
+        by (unfold tok; rewrite spec_close, Hl3; f_equal; rewrite Htot; lia).
+      rewrite Ht3. rewrite main_loop_step by (cbn; discriminate). unfold step.
+      change (sttc true (1%N, off + tot) stk' tags (map snd env)) with (mkS (off + tot) 1 stk' tags true (map snd env)). cbn [ps_fm].
+      change (N.eqb 1 tpp_LineEndID) with true. cbv iota.
+      unfold stk'. rewrite do_line_end_svar. unfold then_next. cbn [bind ps_fo].
+      assert (Hc4 : content = (pre ++ s_svar_open ++ pp ++ print_subs subs ++ s_close) ++ post) by (rewrite Hc; repeat rewrite <- app_assoc; reflexivity).
+      assert (Hl4 : length (pre ++ s_svar_open ++ pp ++ print_subs subs ++ s_close) = off + tot) by (rewrite Htot; unfold off; repeat rewrite app_length; cbn [length s_svar_open s_close]; lia).
+      rewrite <- Hl4. rewrite (fnext_tok w content _ _ Hc4). cbn [bind]. rewrite Hl4.
+      unfold with_finder, stt. cbn [ps_stack ps_cur ps_child ps_chain]. reflexivity.
+    - (* inline if with a false value *)
+      intros c t fl _ _ depth env stk cur pre post fuel Hwf Hc Henv Hstk.
+      rewrite wf_TIIf in Hwf. apply andb_prop in Hwf. destruct Hwf as [Hwf Hnt]. apply andb_prop in Hwf. destruct Hwf as [Hwf H16].
+      apply andb_prop in Hwf. destruct Hwf as [Hwf Hf]. apply andb_prop in Hf. destruct Hf as [Hifl Hwfl].
+      apply andb_prop in Hwf. destruct Hwf as [Hwf Hwt]. apply andb_prop in Hwf. destruct Hwf as [Hwc Hit].
+      apply N.leb_le in H16. apply Nat.leb_le in Hnt.
+      pose proof (wf_expr_pok _ _ Hwc) as Hok.
+      rewrite steps_iif. rewrite build_TIIf_some. cbv zeta.
+      set (off := length pre). set (pe := print_expr c) in *. set (pt := print_nodes t) in *. set (pf := print_nodes fl) in *.
+      set (tot := length (print_node (TIIf c t (Some fl)))) in *.
+      assert (Htot : tot = 10 + length pe + 8 + length pt + 9 + length pf + 2)
+        by (unfold tot; rewrite print_node_TIIf; repeat rewrite app_length; cbn [length s_iif_open s_true_attr s_false_attr s_iif_close]; fold pe pt pf; lia).
+      rewrite print_node_TIIf in Hc |- *. fold pe pt pf in Hc |- *.
+      set (ts := off + 10 + length pe + 8). set (fs := ts + length pt + 9).
+      set (A := build_list env (S depth) ts t). set (B := build_list env (S depth) fs fl).
+      set (ex := qexpr_of env (off + 10) c).
+      set (r' := s_true_in ++ pt ++ s_false_attr ++ pf ++ s_iif_close ++ post).
+      assert (Hc1 : content = pre ++ s_iif_open ++ pe ++ 34%N :: r')
+        by (rewrite Hc; unfold r', s_true_attr, s_true_in; repeat rewrite <- app_assoc; reflexivity).
+      assert (H125 : In 125%N r').
+      { unfold r'. apply in_or_app. right. apply in_or_app. right. apply in_or_app. right. apply in_or_app. right. apply in_or_app. left. right. left. reflexivity. }
+      (* {if *)
+      assert (Ht : tok pre ((s_iif_open ++ pe ++ s_true_attr ++ pt ++ (s_false_attr ++ pf) ++ s_iif_close) ++ post) = (6%N, off + 3))
+        by (unfold tok; repeat rewrite <- app_assoc; apply spec_iif).
+      rewrite Ht. replace (S (S (steps_list t + steps_list fl)) + fuel) with (S (steps_list t + (steps_list fl + S fuel))) by lia.
+      rewrite main_loop_step by (cbn; discriminate). unfold step.
+      change (stt (6%N, off + 3) stk cur (map snd env)) with (mkS (off + 3) 6 stk cur false (map snd env)). cbn [ps_fm].
+      change (N.eqb 6 tpp_LineEndID) with false. change (N.eqb 6 tpp_VariableID) with false. change (N.eqb 6 tpp_RawVariableID) with false.
+      change (N.eqb 6 tpp_MathID) with false. change (N.eqb 6 tpp_SuperVariableID) with false. change (N.eqb 6 tpp_InLineIfID) with true. cbv iota.
+      unfold off at 1. rewrite (do_iif_sim numf w content Hnum env stk cur pre c r' 6 Hc1 H125 Hok Henv). cbn [bind]. fold pe off ex.
+      set (i0 := mkI off 0 (t16 (10 + length pe + 1)) 0 0 0 0 0).
+      set (stk' := (cur ++ [PIIf i0 ex []]) :: stk).
+      (* the true value *)
+      set (prt := pre ++ s_iif_open ++ pe ++ s_true_attr).
+      assert (Hlt : length prt = ts) by (unfold prt, ts, off; repeat rewrite app_length; cbn [length s_iif_open s_true_attr]; lia).
+      replace (tok (pre ++ s_iif_open ++ pe) (34%N :: r')) with (tok prt (pt ++ (s_false_attr ++ pf ++ s_iif_close ++ post))).
+      2:{ unfold prt, r'. replace (34%N :: s_true_in ++ pt ++ s_false_attr ++ pf ++ s_iif_close ++ post)
+            with (s_true_attr ++ pt ++ s_false_attr ++ pf ++ s_iif_close ++ post) by reflexivity.
+          rewrite (tok_text s_true_attr) by reflexivity. repeat rewrite <- app_assoc. reflexivity. }
+      assert (Hct : content = prt ++ pt ++ (s_false_attr ++ pf ++ s_iif_close ++ post)) by (rewrite Hc; unfold prt; repeat rewrite <- app_assoc; reflexivity).
+      pose proof (leaf_list_par numf w content Hnum t (S depth) env stk' [] prt _ (steps_list fl + S fuel) Hit Hwt Hct Henv) as Hlp. fold pt in Hlp. rewrite Hlp. clear Hlp.
+      cbn [app]. rewrite Hlt. fold A.
+      (* the false value *)
+      set (prf := (prt ++ pt) ++ s_false_attr).
+      assert (Hlf : length prf = fs) by (unfold prf, fs; repeat rewrite app_length; rewrite Hlt; cbn [length s_false_attr]; lia).
+      rewrite (tok_text s_false_attr) by reflexivity. fold prf.
+      assert (Hcf : content = prf ++ pf ++ (s_iif_close ++ post)) by (rewrite Hc; unfold prf, prt; repeat rewrite <- app_assoc; reflexivity).
+      pose proof (leaf_list_par numf w content Hnum fl (S depth) env stk' A prf _ (S fuel) Hifl Hwfl Hcf Henv) as Hlp. fold pf in Hlp. rewrite Hlp. clear Hlp.
+      rewrite Hlf. fold B.
+      (* the closing brace *)
+      replace (s_iif_close ++ post) with ([34%N] ++ s_close ++ post) by reflexivity.
+      rewrite (tok_text [34%N]) by reflexivity.
+      assert (Hl3 : length ((prf ++ pf) ++ [34%N]) = off + tot - 1)
+        by (repeat rewrite app_length; rewrite Hlf, Htot; unfold fs, ts; cbn [length]; lia).
+      assert (Ht3 : tok ((prf ++ pf) ++ [34%N]) (s_close ++ post) = (1%N, off + tot))
+        by (unfold tok; rewrite spec_close, Hl3; f_equal; rewrite Htot; lia).
+      rewrite Ht3. rewrite main_loop_step by (cbn; discriminate). unfold step.
+      change (sttc true (1%N, off + tot) stk' (A ++ B) (map snd env)) with (mkS (off + tot) 1 stk' (A ++ B) true (map snd env)). cbn [ps_fm].
+      change (N.eqb 1 tpp_LineEndID) with true. cbv iota.
+      unfold stk'. rewrite do_line_end_iif. unfold i0.
+      assert (HlA : length A = ntags t) by (apply ntags_build; exact Hit).
+      pose proof (finalize_iif_some content off (length pe) pt pf A B stk cur ex (map snd env)) as Hfin. cbv zeta in Hfin.
+      replace (10 + length pe + 8 + length pt + 9 + length pf + 2) with tot in Hfin by lia.
+      fold ts in Hfin. fold fs in Hfin.
+      unfold then_next. rewrite Hfin; clear Hfin.
+      + cbn [bind ps_fo].
+        assert (Hc4 : content = (pre ++ s_iif_open ++ pe ++ s_true_attr ++ pt ++ (s_false_attr ++ pf) ++ s_iif_close) ++ post)
+          by (rewrite Hc; repeat rewrite <- app_assoc; reflexivity).
+        assert (Hl4 : length (pre ++ s_iif_open ++ pe ++ s_true_attr ++ pt ++ (s_false_attr ++ pf) ++ s_iif_close) = off + tot)
+          by (rewrite Htot; unfold off; repeat rewrite app_length; cbn [length s_iif_open s_true_attr s_false_attr s_iif_close]; lia).
+        rewrite <- Hl4. rewrite (fnext_tok w content _ _ Hc4). cbn [bind]. rewrite Hl4.
+        unfold with_finder, stt. cbn [ps_stack ps_cur ps_child ps_chain]. rewrite HlA. reflexivity.
+      + replace (off + 10 + length pe + 1) with (length (pre ++ s_iif_open ++ pe ++ [34%N])) by (repeat rewrite app_length; cbn [length s_iif_open]; unfold off; lia).
+        apply (at_split content _ _ post). rewrite Hc. unfold s_true_attr, s_true_in, s_false_attr, s_false_in, s_iif_close. repeat rewrite <- app_assoc. reflexivity.
+      + apply (inl_no34 t _ _ Hit Hwt).
+      + apply (inl_no34 fl _ _ Hifl Hwfl).
+      + exact H16.
+      + rewrite HlA. lia.
+      + pose proof (build_list_span t env (S depth) ts Hit) as Hs. fold pt in Hs. exact Hs.
+      + pose proof (build_list_span fl env (S depth) fs Hifl) as Hs. fold pf in Hs. exact Hs.
+    - (* inline if without a false value *)
+      intros c t _ depth env stk cur pre post fuel Hwf Hc Henv Hstk.
+      rewrite wf_TIIf in Hwf. apply andb_prop in Hwf. destruct Hwf as [Hwf Hnt]. apply andb_prop in Hwf. destruct Hwf as [Hwf H16].
+      apply andb_prop in Hwf. destruct Hwf as [Hwf _].
+      apply andb_prop in Hwf. destruct Hwf as [Hwf Hwt]. apply andb_prop in Hwf. destruct Hwf as [Hwc Hit].
+      apply N.leb_le in H16.
+      pose proof (wf_expr_pok _ _ Hwc) as Hok.
+      rewrite steps_iif. rewrite build_TIIf_none. cbv zeta.
+      set (off := length pre). set (pe := print_expr c) in *. set (pt := print_nodes t) in *.
+      set (tot := length (print_node (TIIf c t None))) in *.
+      assert (Htot : tot = 10 + length pe + 8 + length pt + 2)
+        by (unfold tot; rewrite print_node_TIIf; repeat rewrite app_length; cbn [length s_iif_open s_true_attr s_iif_close]; fold pe pt; lia).
+      rewrite print_node_TIIf in Hc |- *. fold pe pt in Hc |- *. cbn [app] in Hc |- *.
+      set (ts := off + 10 + length pe + 8).
+      set (A := build_list env (S depth) ts t).
+      set (ex := qexpr_of env (off + 10) c).
+      set (r' := s_true_in ++ pt ++ s_iif_close ++ post).
+      assert (Hc1 : content = pre ++ s_iif_open ++ pe ++ 34%N :: r')
+        by (rewrite Hc; unfold r', s_true_attr, s_true_in; repeat rewrite <- app_assoc; reflexivity).
+      assert (H125 : In 125%N r').
+      { unfold r'. apply in_or_app. right. apply in_or_app. right. apply in_or_app. left. right. left. reflexivity. }
+      assert (Ht : tok pre ((s_iif_open ++ pe ++ s_true_attr ++ pt ++ s_iif_close) ++ post) = (6%N, off + 3))
+        by (unfold tok; repeat rewrite <- app_assoc; apply spec_iif).
+      rewrite Ht. replace (S (S (steps_list t + 0)) + fuel) with (S (steps_list t + S fuel)) by lia.
+      rewrite main_loop_step by (cbn; discriminate). unfold step.
+      change (stt (6%N, off + 3) stk cur (map snd env)) with (mkS (off + 3) 6 stk cur false (map snd env)). cbn [ps_fm].
+      change (N.eqb 6 tpp_LineEndID) with false. change (N.eqb 6 tpp_VariableID) with false. change (N.eqb 6 tpp_RawVariableID) with false.
+      change (N.eqb 6 tpp_MathID) with false. change (N.eqb 6 tpp_SuperVariableID) with false. change (N.eqb 6 tpp_InLineIfID) with true. cbv iota.
+      unfold off at 1. rewrite (do_iif_sim numf w content Hnum env stk cur pre c r' 6 Hc1 H125 Hok Henv). cbn [bind]. fold pe off ex.
+      set (i0 := mkI off 0 (t16 (10 + length pe + 1)) 0 0 0 0 0).
+      set (stk' := (cur ++ [PIIf i0 ex []]) :: stk).
+      set (prt := pre ++ s_iif_open ++ pe ++ s_true_attr).
+      assert (Hlt : length prt = ts) by (unfold prt, ts, off; repeat rewrite app_length; cbn [length s_iif_open s_true_attr]; lia).
+      replace (tok (pre ++ s_iif_open ++ pe) (34%N :: r')) with (tok prt (pt ++ (s_iif_close ++ post))).
+      2:{ unfold prt, r'. replace (34%N :: s_true_in ++ pt ++ s_iif_close ++ post)
+            with (s_true_attr ++ pt ++ s_iif_close ++ post) by reflexivity.
+          rewrite (tok_text s_true_attr) by reflexivity. repeat rewrite <- app_assoc. reflexivity. }
+      assert (Hct : content = prt ++ pt ++ (s_iif_close ++ post)) by (rewrite Hc; unfold prt; repeat rewrite <- app_assoc; reflexivity).
+      pose proof (leaf_list_par numf w content Hnum t (S depth) env stk' [] prt _ (S fuel) Hit Hwt Hct Henv) as Hlp. fold pt in Hlp. rewrite Hlp. clear Hlp.
+      cbn [app]. rewrite Hlt. fold A.
+      replace (s_iif_close ++ post) with ([34%N] ++ s_close ++ post) by reflexivity.
+      rewrite (tok_text [34%N]) by reflexivity.
+      assert (Hl3 : length ((prt ++ pt) ++ [34%N]) = off + tot - 1)
+        by (repeat rewrite app_length; rewrite Hlt, Htot; unfold ts; cbn [length]; lia).
+      assert (Ht3 : tok ((prt ++ pt) ++ [34%N]) (s_close ++ post) = (1%N, off + tot))
+        by (unfold tok; rewrite spec_close, Hl3; f_equal; rewrite Htot; lia).
+      rewrite Ht3. rewrite main_loop_step by (cbn; discriminate). unfold step.
+      change (sttc true (1%N, off + tot) stk' A (map snd env)) with (mkS (off + tot) 1 stk' A true (map snd env)). cbn [ps_fm].
+      change (N.eqb 1 tpp_LineEndID) with true. cbv iota.
+      unfold stk'. rewrite do_line_end_iif. unfold i0.
+      pose proof (finalize_iif_none content off (length pe) pt A stk cur ex (map snd env)) as Hfin. cbv zeta in Hfin.
+      replace (10 + length pe + 8 + length pt + 2) with tot in Hfin by lia.
+      fold ts in Hfin.
+      unfold then_next. rewrite Hfin; clear Hfin.
+      + cbn [bind ps_fo].
+        assert (Hc4 : content = (pre ++ s_iif_open ++ pe ++ s_true_attr ++ pt ++ s_iif_close) ++ post)
+          by (rewrite Hc; repeat rewrite <- app_assoc; reflexivity).
+        assert (Hl4 : length (pre ++ s_iif_open ++ pe ++ s_true_attr ++ pt ++ s_iif_close) = off + tot)
+          by (rewrite Htot; unfold off; repeat rewrite app_length; cbn [length s_iif_open s_true_attr s_iif_close]; lia).
+        rewrite <- Hl4. rewrite (fnext_tok w content _ _ Hc4). cbn [bind]. rewrite Hl4.
+        unfold with_finder, stt. cbn [ps_stack ps_cur ps_child ps_chain]. reflexivity.
+      + replace (off + 10 + length pe + 1) with (length (pre ++ s_iif_open ++ pe ++ [34%N])) by (repeat rewrite app_length; cbn [length s_iif_open]; unfold off; lia).
+        apply (at_split content _ _ post). rewrite Hc. unfold s_true_attr, s_true_in, s_iif_close. repeat rewrite <- app_assoc. reflexivity.
+      + apply (inl_no34 t _ _ Hit Hwt).
+      + exact H16.
+      + pose proof (build_list_span t env (S depth) ts Hit) as Hs. fold pt in Hs. exact Hs.
     - (* if *)
       intros c body more Hb Hm depth env stk cur pre post fuel Hwf Hc Henv Hstk.
       rewrite wf_TIf in Hwf. apply andb_prop in Hwf. destruct Hwf as [Hwf Hwm]. apply andb_prop in Hwf. destruct Hwf as [Hwc Hwb].
@@ -481,9 +652,14 @@ Proof.
   - intros p. rewrite print_node_TVar. cbn [steps]. rewrite app_length. cbn [length s_var_open]. lia.
   - intros p. rewrite print_node_TRaw. cbn [steps]. rewrite app_length. cbn [length s_raw_open]. lia.
   - intros e. rewrite print_node_TMath. cbn [steps]. rewrite app_length. cbn [length s_math_open]. lia.
-  - intros p subs. cbn [steps]. lia.
-  - intros c t fl _ _. cbn [steps]. lia.
-  - intros c t _. cbn [steps]. lia.
+  - intros p subs. rewrite steps_svar, print_node_TSVar. repeat rewrite app_length. cbn [length s_svar_open s_close].
+    assert (H2 : 2 * length subs <= length (print_subs subs)).
+    { induction subs as [|x r IH]; [cbn; lia|]. cbn [print_subs length]. repeat rewrite app_length. cbn [length s_comma_sp]. lia. }
+    lia.
+  - intros c t fl Ht Hf. rewrite steps_iif, print_node_TIIf. repeat rewrite app_length. cbn [length s_iif_open s_iif_close].
+    pose proof (HL t Ht). pose proof (HL fl Hf). lia.
+  - intros c t Ht. rewrite steps_iif, print_node_TIIf. repeat rewrite app_length. cbn [length s_iif_open s_iif_close].
+    pose proof (HL t Ht). lia.
   - intros c body more Hb Hm. rewrite steps_if, print_node_TIf. repeat rewrite app_length. cbn [length s_if_open s_if_end].
     pose proof (HL body Hb) as H1.
     assert (H2 : steps_more more <= length (print_more more) + 1).
